@@ -183,8 +183,8 @@ class C18(Check):
             'step a full scan of all keys ever used must agree with the model; non-trivial = the history contains a JSON '
             'save, two ids in prefix relation, or a failed save followed by more operations; distinct = digest of the '
             'operation list')
-    quick_examples = 200
-    thorough_examples = 1200
+    quick_examples = 800
+    thorough_examples = 3000
     max_steps = 12
     floors = {'json-save': 0.3, 'ids-in-prefix-relation': 0.1}
     assumptions = ('node ids, model names and pipeline ids contain no path separator or NUL (W7)',
